@@ -62,6 +62,13 @@ Definition obs_balanced (o : obs_delta) : bool :=
   let '(st, de, it, ai, sh, wr) := o in
   (negb st && negb de && negb it && negb ai && negb sh && negb wr) || (st && de && it && ai && sh && wr).
 
+Fixpoint zlist_eqb (x y : list Z) : bool :=
+  match x, y with
+  | [], [] => true
+  | u :: x', v :: y' => (u =? v)%Z && zlist_eqb x' y'
+  | _, _ => false
+  end.
+
 (* consistency of a final state: what the property demands of the result of the resumed run *)
 Definition final_ok_b (n : nat) (s : state) : bool :=
   nodupb (map pid (dead s))                                  (* no point recorded twice           *)
@@ -69,12 +76,7 @@ Definition final_ok_b (n : nat) (s : state) : bool :=
   && (length (logLs s) =? S (length (dead s)))%nat           (* integrated exactly once each      *)
   && (length (idxs s) =? iter s)%nat                         (* counts agree                      *)
   && sortedb (map key (dead s))
-  && zlist_eq (logLs s) ((- kinf)%Z :: map key (dead s))
-where "'zlist_eq' a b" := ((fix f (x y : list Z) : bool :=
-                              match x, y with
-                              | [], [] => true
-                              | u :: x', v :: y' => (u =? v)%Z && f x' y'
-                              | _, _ => false end) a b) (at level 0, a at level 0, b at level 0).
+  && zlist_eqb (logLs s) ((- kinf)%Z :: map key (dead s)).
 
 (* ---- the handler: FlowSampler.safe_exit / terminate_run ------------------------------------ *)
 Inductive heff :=
